@@ -5,7 +5,7 @@ from vlib import content as C
 
 from . import corecommon as cc
 
-PROPS = ["MxlVerif.Props.C01", "MxlVerif.Props.C01Main", "MxlVerif.Props.C01Args"]
+PROPS = ["MxlVerif.Props.C01", "MxlVerif.Props.C01Main", "MxlVerif.Props.C01Args", "MxlVerif.Props.C01Tie"]
 
 
 def setup(ctx):
